@@ -35,6 +35,10 @@ type Coro struct {
 	err      Value
 	hasErr   bool
 	errTaken bool
+	// parked: the coroutine died by an error and keeps its stack
+	// (Ext.CoErrKeepsStack): its goroutine waits for coroutine.close or the
+	// end of the run
+	parked bool
 }
 
 // coClose is the panic payload that unwinds a coroutine being closed.
@@ -52,8 +56,8 @@ func (in *Interp) newCoro(f Value) *Coro {
 
 func (in *Interp) killCoros() {
 	for _, co := range in.coros {
-		if co.started && co.status != "dead" {
-			co.status = "dead"
+		if co.started && (co.status != "dead" || co.parked) {
+			co.status, co.parked = "dead", false
 			co.toCo <- coMsg{kind: mKill}
 		}
 	}
@@ -144,9 +148,41 @@ func (in *Interp) yield(vals []Value) []Value {
 	case mKill:
 		runtime.Goexit()
 	case mClose:
+		if t.inHandler > 0 {
+			unspec("coroutine closed while it is suspended inside a __close handler")
+		}
+		t.dying = true
 		panic(coClose{})
 	}
 	return msg.vals
+}
+
+// dieWithStack ends coroutine co with error v without unwinding its stack
+// (Ext.CoErrKeepsStack).  The goroutine stays parked at the raise point until
+// the coroutine is closed, which unwinds the stack with v in flight.
+func (in *Interp) dieWithStack(co *Coro, v Value) {
+	co.parked = true
+	co.fromCo <- coMsg{kind: mError, err: v, hasErr: true}
+	msg := <-co.toCo
+	switch msg.kind {
+	case mKill:
+		runtime.Goexit()
+	case mClose:
+		co.th.dying = true
+		panic(coClose{err: v, hasErr: true})
+	}
+	panic("reflua: a dead coroutine was resumed")
+}
+
+// closeParked closes a coroutine that died by an error and kept its stack;
+// it returns the error that remains after the handlers ran.
+func (in *Interp) closeParked(co *Coro) Value {
+	co.parked = false
+	back := in.transfer(co, coMsg{kind: mClose})
+	if back.kind != mClosed {
+		unspec("coroutine yielded or returned while being closed")
+	}
+	return back.err
 }
 
 func (in *Interp) installCoroutine() {
@@ -199,6 +235,10 @@ func (in *Interp) installCoroutine() {
 				return vals
 			}
 			ev := first(vals)
+			if co.parked {
+				// "its corresponding function will close the coroutine in case of errors"
+				ev = in.closeParked(co)
+			}
 			switch ev.(type) {
 			case string, *RTErr:
 				// string errors get position information prepended by wrap
@@ -212,6 +252,10 @@ func (in *Interp) installCoroutine() {
 		co := needCo(in, arg(args, 0), "close")
 		switch co.status {
 		case "dead":
+			if co.parked {
+				co.errTaken = true
+				return []Value{false, in.closeParked(co)}
+			}
 			if co.hasErr {
 				if co.errTaken {
 					unspec("closing an errored coroutine twice")
